@@ -158,6 +158,11 @@ class Index(object):
     return s.replace('+-', '-')
 
 
+PLUMBING = ('_unstack_nd', '_stack_nd', '_reverse_second_list_dimension',
+            'tf.unstack', 'tf.stack', '_unstack_nested_lists',
+            '_stack_nested_lists')
+
+
 class Kernel(object):
   """Symbolic interpreter for one function body."""
 
@@ -174,6 +179,7 @@ class Kernel(object):
     self.cells = {}                  # key -> Form (current value)
     self.touched = []                # keys written, in order
     self.read = set()
+    self.inline_helpers = False
 
   # -- indices -----------------------------------------------------------
   def index(self, e):
@@ -261,6 +267,30 @@ class Kernel(object):
         return relu(self.val(e.args[0]))
       if ext in ('tf.identity',):
         return self.val(e.args[0])
+      if ext in ('tf.reduce_max', 'tf.reduce_min'):
+        # opaque aggregate of a form: aggmax(F) >= F, aggmin(F) <= F
+        inner = self.val(e.args[0])
+        kind = 'aggmax' if ext.endswith('max') else 'aggmin'
+        return Form.atom((kind, ReluArg(inner)))
+      # repo helper: interpret its body with the arguments bound
+      from ..model import FunctionInfo, call_args
+      r = self.prog.resolve_call(self.fn, e)
+      if isinstance(r, FunctionInfo) and r.cls is None and \
+          self.inline_helpers:
+        bound, _, _ = call_args(e, r.all_params)
+        sub = Kernel(self.prog, r, self.containers, self.decide, self.subst)
+        sub.inline_helpers = True
+        sub.cells = self.cells
+        for pname in r.all_params:
+          if pname not in bound:
+            continue
+          try:
+            sub.env[pname] = self.val(bound[pname])
+          except AnalysisError:
+            sub.env[pname] = ('opaque', bound[pname])
+        ret = sub.run_function(r)
+        if ret is not None:
+          return ret
     raise AnalysisError('%s: expression %s is outside the affine subset' % (
         self.fn.loc(e), norm_text(e)[:60]))
 
@@ -287,6 +317,12 @@ class Kernel(object):
         self.assign_cell(k, self.val(st.value))
         return
       if isinstance(t, ast.Name):
+        if isinstance(st.value, ast.Call):
+          r = self.prog.resolve_call(self.fn, st.value)
+          nm = getattr(r, 'name', None) or (
+              self.prog.ext_name(self.fn.module, st.value.func) or '')
+          if nm in PLUMBING:
+            return     # list <-> tensor plumbing: index maps, not arithmetic
         try:
           self.env[t.id] = self.val(st.value)
         except AnalysisError:
@@ -297,6 +333,9 @@ class Kernel(object):
             self.env.pop(t.id, None)
             self.env[t.id] = ('opaque', st.value)
         return
+    if isinstance(st, ast.Assign) and len(st.targets) == 1 and isinstance(
+        st.targets[0], ast.Tuple):
+      return       # unpacking of configuration tuples / initial zeros
     if isinstance(st, ast.AugAssign) and isinstance(st.target, ast.Subscript):
       k = self.cell_key(st.target)
       if k is None:
@@ -333,6 +372,24 @@ class Kernel(object):
       return
     raise AnalysisError('%s: statement %s is outside the modelled subset' % (
         self.fn.loc(st), type(st).__name__))
+
+  def run_function(self, fn):
+    """interprets fn's body until its return; returns the returned Form"""
+    def block(stmts):
+      for st in stmts:
+        if isinstance(st, ast.Expr):
+          continue
+        if isinstance(st, ast.Return):
+          return self.val(st.value)
+        if isinstance(st, ast.If):
+          t = self.decide(st.test)
+          r = block(st.body if t else st.orelse)
+          if r is not None:
+            return r
+          continue
+        self.step(st)
+      return None
+    return block(fn.node.body)
 
   def deltas(self):
     """cell key -> Form of (final - initial) for touched cells"""
